@@ -428,6 +428,12 @@ class DNSIncoming:
                 )
             linked_labels = self._name_cache.get(link_py_int)
             if not linked_labels:
+                if len(seen_pointers) >= MAX_DNS_LABELS:
+                    # Each pointer followed costs a stack frame; a name has at most
+                    # MAX_DNS_LABELS labels so a longer chain is never legitimate.
+                    raise IncomingDecodeError(
+                        f"Maximum dns compression pointers reached at {off} from {self.source}"
+                    )
                 linked_labels = []
                 seen_pointers.add(link_py_int)
                 self._decode_labels_at_offset(link, linked_labels, seen_pointers)
